@@ -35,11 +35,35 @@ def main():
     assert rc == 0, out
     meta = {"property": pid, "variant": var, "checked_at_repo_commit": sh("git -C /repo rev-parse --short HEAD")[1].strip()}
     try:
-        patch = src / "patch_head.diff" if (src / "patch_head.diff").exists() else src / "patch.diff"
+        # the stored patch was made against an older commit: context lines may match elsewhere in today's file
+        # (e.g. Lock vs Semaphore), so it is applied where it was made and then carried to HEAD by a 3-way cherry-pick
+        old_meta = json.loads((dst / "meta.json").read_text()) if (dst / "meta.json").exists() else {}
+        orig = old_meta.get("orig_commit") or old_meta.get("checked_at_repo_commit")
+        meta["orig_commit"] = orig or meta["checked_at_repo_commit"]
+        head = sh("git -C /repo rev-parse HEAD")[1].strip()
+        if (src / "patch_head.diff").exists():
+            patch = src / "patch_head.diff"
+            rc, out = sh(f"git -C {wt} apply {patch}")
+        else:
+            patch = src / "patch.diff"
+            if orig and sh(f"git -C /repo merge-base --is-ancestor {orig} {head}")[0] == 0 and not head.startswith(orig):
+                rc, out = sh(f"git -C {wt} checkout -q --detach {orig} && git -C {wt} apply {patch} && "
+                             f"git -C {wt} -c user.name=seed -c user.email=seed@x commit -qam seed")
+                seed_commit = sh(f"git -C {wt} rev-parse HEAD")[1].strip()
+                sh(f"git -C {wt} checkout -q --detach {head}")
+                sh(f"git -C {wt} -c user.name=seed -c user.email=seed@x cherry-pick -n {seed_commit}")
+                # cherry-pick -n of the commit made above (referenced through the reflog of the detached HEAD)
+                rc, out = sh(f"git -C {wt} status --porcelain")
+                conflict = any(l[:2] in ("UU", "AA", "DU", "UD") for l in out.splitlines())
+                changed = any(l.strip() for l in out.splitlines())
+                rc = 1 if (conflict or not changed) else 0
+                if rc == 0:
+                    sh(f"git -C {wt} reset -q")        # keep the change in the working tree only
+                    (dst / "patch_ported.diff").write_text(sh(f"git -C {wt} diff")[1])
+                out = "cherry-pick conflict or empty result: " + out
+            else:
+                rc, out = sh(f"git -C {wt} apply {patch}")
         meta["patch_file"] = patch.name
-        rc, out = sh(f"git -C {wt} apply {patch}")
-        if rc != 0:
-            rc, out = sh(f"git -C {wt} apply -3 {patch}")
         meta["patch_applies"] = rc == 0
         if rc != 0:
             meta["apply_error"] = out[-500:]
